@@ -247,14 +247,14 @@ pub fn monitors(
     let op = toks[0];
     let ok = !res.starts_with("err:") && res != "panic";
     if res == "panic" {
-        fails.push("C12:operation panicked".to_string());
+        fails.push("ANY:operation panicked".to_string());
     }
 
     // ---- C01 on every served view
     for (n, l, c) in clusters {
         match c {
             Some(c) => check_cluster_view(c, &format!("cluster {} limit {}", n, l), &mut fails),
-            None => fails.push(format!("C12:cluster view {} limit {} panicked or vanished", n, l)),
+            None => fails.push(format!("ANY:cluster view {} limit {} panicked or vanished", n, l)),
         }
     }
     for (a, l, p) in proxies {
@@ -268,7 +268,7 @@ pub fn monitors(
                 });
                 check_proxy_view(p, full, &format!("proxy {} limit {}", a, l), &mut fails)
             }
-            None => fails.push(format!("C12:proxy view {} limit {} panicked or vanished", a, l)),
+            None => fails.push(format!("ANY:proxy view {} limit {} panicked or vanished", a, l)),
         }
     }
 
